@@ -20,13 +20,14 @@ def rules(strategy, peer_strategy, hold_seq=0):
 <program name="u"><identifiers>*</identifiers><start_sequence>0</start_sequence>
 <running_failure_strategy>CONTINUE</running_failure_strategy></program>
 </programs></application>
-<application name="dup"><programs><program name="d"><identifiers>*</identifiers></program></programs></application>
+<application name="dup"><programs><program name="d"><identifiers>*</identifiers>
+<running_failure_strategy>{peer_strategy}</running_failure_strategy></program></programs></application>
 <application name="hold"><start_sequence>{hold_seq}</start_sequence><programs><program name="h1">
 <identifiers>n1</identifiers><start_sequence>1</start_sequence></program></programs></application>
 </root>'''
 
 
-def scenario(strategy, lost, q_on, u_on, when, crash=False, phase='operation'):
+def scenario(strategy, lost, q_on, u_on, when, crash=False, phase='operation', double=False):
     """p runs on `lost`; q on q_on; u (not sequenced) on u_on; the instance `lost` is lost `when` rounds later."""
     import clusterlib as cl
     from recorder import Driver
@@ -34,7 +35,8 @@ def scenario(strategy, lost, q_on, u_on, when, crash=False, phase='operation'):
     progs = [{'name': x, 'groups': ['app']} for x in ('p', 'q', 'u')]
     progs += [{'name': 'd', 'groups': ['dup']}, {'name': 'h1', 'groups': ['hold'], 'startsecs': 60}]
     # phase 'distribution': the Master is held in DISTRIBUTION by a start that never ends (hold:h1 on n1)
-    c = cl.make_cluster(cfg, programs=progs, rules_xml=rules(strategy, 'CONTINUE', 1 if phase == 'distribution' else 0))
+    c = cl.make_cluster(cfg, programs=progs, rules_xml=rules(strategy, 'RESTART_PROCESS' if double else 'CONTINUE',
+                                                                1 if phase == 'distribution' else 0))
     d = Driver(c)
     out = {'strategy': strategy, 'lost': int(lost[1]), 'p': 'p', 'crash': crash, 'err': False, 'phase': phase}
     try:
@@ -46,7 +48,9 @@ def scenario(strategy, lost, q_on, u_on, when, crash=False, phase='operation'):
             raise MachineryFailure(f'C06 e2e: n1 in {c.fsm_state("n1")} (phase {phase})')
         d.rpc(lost, 'startProcess', 'app:p', False, ns='supervisor')
         if q_on:
-            d.rpc(q_on, 'startProcess', 'app:q', False, ns='supervisor')
+            # (double loss: the second process belongs to ANOTHER application, else the loss of both promotes
+            # RESTART_PROCESS to RESTART_APPLICATION and hides which process was handed to the handler)
+            d.rpc(q_on, 'startProcess', 'dup:d' if double else 'app:q', False, ns='supervisor')
         if u_on:
             d.rpc(u_on, 'startProcess', 'app:u', False, ns='supervisor')
         if phase == 'conciliation':
@@ -68,6 +72,10 @@ def scenario(strategy, lost, q_on, u_on, when, crash=False, phase='operation'):
         else:
             d.crash(lost)
             alive = [n for n in c.nodes if n != lost]
+            if double:
+                # the instance hosting q is lost at the same instant: both are invalidated in the same FSM cycle
+                d.crash(q_on)
+                alive = [n for n in alive if n != q_on]
         peers = []
         for n in alive:
             for ns, proc in c.nodes[n].processes():
@@ -108,6 +116,10 @@ def scenarios(tier):
         if strategy in ('STOP_APPLICATION', 'RESTART_APPLICATION'):
             for host in ('n3', 'n1'):
                 out.append((strategy, host, 'n2', 'n2', 0, True))
+        # two instances lost together (each hosting a process that runs only there), both orders
+        if strategy == 'RESTART_PROCESS':
+            out.append((strategy, 'n2', 'n3', None, 0, False, 'operation', True))
+            out.append((strategy, 'n3', 'n2', None, 0, False, 'operation', True))
         # the instance is lost while the Master is in CONCILIATION (conflict left to the user) / held in DISTRIBUTION
         for phase in ('conciliation', 'distribution'):
             for q_on, u_on in ((None, None), ('n2', 'n2')):
